@@ -102,6 +102,51 @@ def crash_variants(beh, cap, rng):
     return out
 
 
+def export_variants(beh, cap, rng):
+    """One behaviour per block boundary: export + re-import right after that Commit, the rest of the
+    behaviour then runs on both chains in lockstep."""
+    idx = [i for i, ev in enumerate(beh) if ev["a"] == "Commit"]
+    if len(idx) > cap:
+        idx = sorted(rng.sample(idx, cap))
+    return [beh[:i + 1] + [{"a": "ExportImport"}] + beh[i + 1:] for i in idx]
+
+
+def c15_custom(pid, tier, plan, scr, hbin, specdir):
+    import json, random
+    import vlib
+    from check_common import classify
+    sd = vlib.seed()
+    rng = random.Random(sd)
+    cov = dict(states=0, transitions=0, traces_validated_against_impl=0, samples=[], mc_runs=[], recordings=[],
+               steps_validated=0, notes=[], findings_other_properties=0, export_import_round_trips=0)
+    for mc in ((FEE_MC[tier] if tier == "thorough" else []) + REG_MC[tier] + STR_MC[tier]):
+        r = vlib.mc_exhaustive(specdir, mc["module"], mc["cfg"], scr, workers=16, timeout=mc.get("timeout", 900))
+        cov["mc_runs"].append(r)
+        cov["states"] += r["distinct"]
+        cov["transitions"] += r["generated"]
+    recs = []
+    nsim, cap = (8, 4) if tier == "quick" else (60, 12)
+    for mod, cfg in (("MC_Fee.tla", "MC_Fee_sim.cfg"), ("MC_Reg.tla", "MC_Reg_sim.cfg"), ("MC_Str.tla", "MC_Str_sim.cfg")):
+        behs = vlib.sim_schedules(specdir, mod, cfg, scr, nsim, 160, sd, procs=4)
+        variants = []
+        for b in behs:
+            variants += export_variants(b, cap, rng)
+        if not variants:
+            raise vlib.Inconclusive("no behaviours for " + cfg)
+        rec, _ = vlib.record_behaviours(hbin, variants, scr, name="exp-" + cfg.replace(".cfg", ""))
+        recs.append((rec, "tlc-simulate:%s x export/import at every block boundary" % cfg, len(variants)))
+        cov["export_import_round_trips"] += len(variants)
+        if len(cov["samples"]) < 2:
+            cov["samples"].append(dict(source=cfg, behaviour=variants[len(variants) // 2][1:16]))
+    for prof, (steps, runs) in (("expmix", (250, 3) if tier == "quick" else (1500, 12)), ("expreg", (150, 2) if tier == "quick" else (1000, 8))):
+        rec = vlib.record_random(hbin, prof, sd, steps, runs, scr)
+        n = sum(1 for l in open(rec) if l.startswith('{"a":"ExportImport"'))
+        recs.append((rec, "random:" + prof, runs))
+        cov["export_import_round_trips"] += n
+    violations, known_hits = classify(pid, recs, cov, scr, specdir)
+    return cov, violations, known_hits
+
+
 def c01_custom(pid, tier, plan, scr, hbin, specdir):
     import json, os, random
     import vlib
@@ -182,6 +227,9 @@ PLANS = {
     "C01": dict(custom=c01_custom,
                 rule="TLC exhaustive on MC_Abci (Crash enabled in every phase, Restart from the durable state, re-proposal of the interrupted block; invariants RestartResumesCommitted, DurableAgreesWithReference); behaviours with TLC-chosen crash points and mixed random histories with EVERY crash point are executed on three real replicas (MemDB uninterrupted; goleveldb crashed/restarted with interleaved CheckTx and queries; separate process with GOMAXPROCS=1 started >1.1 s later); app hash at every height, every tx result (code, data, gas wanted/used), and height/hash/state right after each restart are compared by TLC monitors",
                 assumptions=COMMON_ASSUME + ["crashes are placed between ABCI calls (inside Commit the atomicity is the SDK/DB's)", "nondeterministic statements on paths no transaction reaches are not observable"]),
+    "C15": dict(custom=c15_custom,
+                rule="TLC checks C15State (import assertions hold, round trip is the identity on the four modules' state up to the export cap, second export identical, imported state satisfies every module invariant) in EVERY reachable state of MC_Fee / MC_Reg (export cap 2) / MC_Str; on the real app, TLC-simulated behaviours get an export + import into a fresh default-configured app after every block boundary (one variant each) and seeded random histories at random boundaries; import must not panic, all registered invariants must hold, the second export's enterprise/wrkchain/beacon/stream sections must be identical, projections equal, and the rest of the behaviour runs on both chains in lockstep with equal projections",
+                assumptions=COMMON_ASSUME + ["sections of SDK modules in the exported document are not compared", "the 20,000-record export cap is crossed only in the model (cap 2), not on the real app"]),
     "C06": dict(custom=c06_custom,
                 rule="TLC (MC_Adm) enumerates every CheckTx input of the bounded input space (message sequences x fee classes x extra denomination x payer classes x two fee presets) and checks meta-properties of the ideal admission rule; every enumerated input (quick: all singles + a seeded sample of pairs) is offered to the real app.CheckTx on a committed prepared state; violation = admitted by the code and refused by the ideal rule; non-trivial = a distinct input",
                 assumptions=COMMON_ASSUME + ["only the direction 'code admits and the ideal rule refuses' is a violation; the converse is logged as a note"]),
